@@ -12,7 +12,7 @@ Init == /\ tid \in 1..Len(Traces) /\ l = 1 /\ a = AInit /\ m = MInit
         /\ want = [o \in Ovls |-> 0] /\ mwant = [o \in Ovls |-> 0] /\ fails = <<>> /\ TLCSet(tid, <<0, <<>>>>)
 \* probing() objects: the stream of a probe that has been left is completed - a stale handler of it that the token
 \* mechanism leaves installed is called but delivers nothing
-Live(a2, o) == IF T.mode = "probe" /\ ~IsOpen(a2, o) THEN 0 ELSE 1
+Live(a2, o) == IF T.mode \in {"probe", "ovprobe"} /\ ~IsOpen(a2, o) THEN 0 ELSE 1
 Mech(m2, mw2) == S.curseen /\ S.cur = m2.cur /\ \A o \in Ovls : Len(S.recv[o]) = mw2[o]
 Clauses(a2, w2) ==
   (IF ~S.curseen \/ S.cur = ACur(a2) THEN {}
@@ -56,7 +56,10 @@ Step ==
        [] op[1] = "callg" ->
             LET w2 == [o \in Ovls |-> want[o] + ACallFires(a, o)]
                 mw2 == [o \in Ovls |-> mwant[o] + Live(a, o) * Fires(m.cur, o)]
-            IN UNCHANGED <<a, m>> /\ want' = w2 /\ mwant' = mw2 /\ fails' = Add(a, w2, m, mw2)
+            IN UNCHANGED <<a, m>> /\ want' = w2 /\ mwant' = mw2
+               \* g(y) returns y + 100 whoever listens (overriding probes answer with the value itself)
+               /\ fails' = Add(a, w2, m, mw2) \o (IF S.outcome = "ok" /\ S.ret = op[2] + 100 THEN <<>>
+                                                   ELSE <<[line |-> l, clause |-> "ReturnValue", mech |-> FALSE, op |-> "callg"]>>)
 Spec == Init /\ [][Step]_vars
 Progress == TLCSet(tid, <<l - 1, fails>>)
 Post == \A i \in 1..Len(Traces) :
